@@ -74,3 +74,26 @@ Example idle_then_newer_event :
   let c := {| size := 10; ooo := 5; lateness := 0; idle := 1000 |} in
   run_curs c st0 [Add 1 100 0; Tick 5000; Add 2 200 5000] = [Some 95; Some 4995; Some 4995].
 Proof. vm_compute. reflexivity. Qed.
+
+(* ---- the future guard bounds every received watermark ---- *)
+From SV Require Import Proofs.TumblingWatermark Proofs.TumblingIdle.
+
+Lemma wm_beyond_at_none limit tr : (forall x, In (EvDB x) tr -> x <= limit) -> forall i, wm_beyond_at limit tr i = None.
+Proof.
+  induction tr as [|e r IH]; intros H i; cbn [wm_beyond_at]; [reflexivity|].
+  destruct e as [| | |wk| | |]; try (apply IH; intros x Hx; apply H; right; exact Hx).
+  assert (Hle : wk <= limit) by (apply H; left; reflexivity).
+  destruct (limit <? wk) eqn:E; [apply Z.ltb_lt in E; lia|].
+  apply IH. intros x Hx. apply H. right. exact Hx.
+Qed.
+
+Theorem model_respects_future_guard c h n s tr :
+  0 <= ooo c -> Forall (op_clock_le n) h -> run c st0 h = (s, tr) -> wm_beyond_guard n tr = None.
+Proof.
+  intros Hooo Hclk Hrun. unfold wm_beyond_guard. apply wm_beyond_at_none.
+  intros x Hx. destruct (tumbling_no_early_fire_idle c h s tr Hrun) as [Hwm _].
+  destruct (Hwm x Hx) as [(id & ts & now & Hin & Hsane & ->)|(_ & now & l & Hin & _ & _ & ->)].
+  - rewrite Forall_forall in Hclk. specialize (Hclk _ Hin). cbn in Hclk.
+    apply Z.ltb_ge in Hsane. unfold day in *. lia.
+  - rewrite Forall_forall in Hclk. specialize (Hclk _ Hin). cbn in Hclk. unfold day. lia.
+Qed.
